@@ -19,6 +19,7 @@ from vlib import c13_corpus as corpus
 from vlib import c13_hostile as hostile
 from vlib import c13_oracle as oracle
 from vlib import c13_render as rd
+from vlib import c13_trees as trees
 from vlib import exa
 from vlib.runner import Engine, Violation, exception_signature, load_findings, sig_matches
 
@@ -129,7 +130,8 @@ def judge_events(events: list, body: bytes, taints: list, benign_docs: dict | No
                     bad = next(i for i, c in enumerate(ev.string) if ord(c) > 127)
                     p.culprit = oracle.norm_path(oracle.path_at(ev.string, bad))
                 else:
-                    p.culprit = oracle.non_ascii_culprit(ev.string, taints)
+                    # one root cause whatever the object: oneline() lets printable non-ASCII through and write() is ASCII-strict
+                    classes.append(f'non-ascii-text-from:{oracle.non_ascii_culprit(ev.string, taints)}')
                 p.message += f' in {ev.string[:240]!r}'
             found.append((ev.encoder, ev.kind, p))
         if is_json:
@@ -316,4 +318,5 @@ def check_corpus(case: dict) -> dict:
 ENGINES = [
     Engine('hostile-strings', hostile_cases, check_hostile, quick=450, thorough=12000, batch=150),
     Engine('corpus-render', corpus.mutated_messages, check_corpus, quick=450, thorough=20000, batch=150, fixed_cases=corpus.seed_cases),
+    Engine('tlv-trees', trees.tree_messages, check_corpus, quick=450, thorough=20000, batch=150),
 ]
